@@ -261,7 +261,8 @@ Definition rule_cores (r : rule) (ids : list Z) : res (list loc) :=
   match cores, cores_rev with
   | [], _ => Err E_Assert
   | first :: _, last :: before_rev =>
-    if circular && (1 <? zlen cores) && (lstart last <? lstart first) then
+    (* first.location.parts[0].start: an origin-spanning core starts in its part before the origin *)
+    if circular && (1 <? zlen cores) && (lstart last <? match first with p0 :: _ => ps p0 | [] => 0 end) then
       if dist first last w <? r_cut r then
         do c <- connect_locations [last; first] w;
         Ok (c :: tl (rev before_rev))
@@ -348,10 +349,13 @@ Definition remove_redundant (all : list proto) : res (list proto) :=
   Ok (map fst (filter (fun pf : proto * bool => negb (snd pf)) (combine all flags))).
 
 (* ---------- merge_over_origin ---------- *)
+(* merge_pair: the neighbourhood of the joined core comes from _extend_area_location (forward strand,
+   (N-len)//2+1 cap, at most two parts) like that of every other protocluster; the hand-written
+   halfway split is kept for a joined core over the origin whose neighbourhood fills the record *)
 Definition merge_pair (a b : proto) : res proto :=
   let r := nth_rule rules (p_rule a) in
   do core <- connect_locations [p_core a; p_core b] w;
-  do sur <- extend_location core (r_nb r) N circular;
+  do sur <- extend_area core (r_nb r) N circular false;
   do sur <- (if (llen sur =? N) && negb (bridges sur) && bridges core then
                match core with
                | p0 :: p1 :: _ =>
